@@ -438,15 +438,28 @@ theorem vl_first_stop (patience : Nat) (vs : List Rat)
 
 /-- **`ValidationLoss.__call__`**: one batch is drawn from the module's *own* generators, the
     criterion is the loss of the given parameters on that batch, and the flags / the new counter
-    and best value are the scalar core above applied to that value. -/
+    and best value are the scalar core above applied to that value (a NaN value is never an
+    improvement: it increments the counter and leaves the best value unchanged). -/
 theorem VL_call_spec {Θ G B : Type} (cf : VLConf Θ G B) (s : VL G) (θ : Θ) :
     let gb := cf.nextBatch s.gens
     let v := cf.loss θ gb.2
     (VL.call cf s θ).crit = v ∧ (VL.call cf s θ).vs.gens = gb.1 ∧
-    (VL.call cf s θ).improved = vlImproved s.core v ∧
+    (VL.call cf s θ).improved = vlImprovedV s.core v ∧
     (VL.call cf s θ).stop = vlStop cf.patience cf.early s.core ∧
-    (VL.call cf s θ).vs.core = vlNext s.core v :=
-  ⟨rfl, rfl, rfl, rfl, rfl⟩
+    (VL.call cf s θ).vs.core = vlNextV s.core v ∧
+    (∀ x, v = some x → (VL.call cf s θ).improved = vlImproved s.core x ∧
+      (VL.call cf s θ).vs.core = vlNext s.core x) ∧
+    (v = none → (VL.call cf s θ).improved = false ∧
+      (VL.call cf s θ).vs.core = { counter := s.core.counter + 1, best := s.core.best }) := by
+  refine ⟨rfl, rfl, rfl, rfl, rfl, ?_, ?_⟩
+  · intro x hx; simp only [VL.call, hx]; exact ⟨rfl, rfl⟩
+  · intro hx; simp only [VL.call, hx]; exact ⟨rfl, rfl⟩
+
+/-- on NaN-free values the NaN-aware run is the run of the theorems above -/
+theorem vlAfterV_some (s : VLCore) (vs : List Rat) : vlAfterV s (vs.map some) = vlAfter s vs := by
+  induction vs generalizing s with
+  | nil => rfl
+  | cons v vs ih => simp [vlAfterV, vlAfter, vlNextV, ih]
 
 /-! ### non-vacuity -/
 
